@@ -10,12 +10,12 @@ def check(ctx):
     thorough = ctx.tier == "thorough"
     ctx.build()
     cases = os.path.join(ctx.scratch, "c07_cases.ndjson")
-    ctx.tlc("MC_Layouts", constants={"MaxList": 4 if thorough else 3}, env={"VERIF_OUT": cases}, workers=12)
+    ctx.tlc("MC_Layouts", constants={"MaxList": 4 if thorough else 3}, env={"VERIF_OUT": cases}, workers=1)  # one worker: long lines of concurrent CSVWrite calls interleave
     res = os.path.join(ctx.scratch, "c07_res.ndjson")
     ctx.vh_ok(["c07-replay", cases, res])
     run_results(ctx, res, "MC_Layouts-values-replayed-through-Encode/Parse")
     tr = os.path.join(ctx.scratch, "c07_helpers.ndjson")
-    ctx.vh_ok(["c07-helpers", 2000 if thorough else 300, tr])
+    ctx.vh_ok(["c07-helpers", 2000 if thorough else 300, tr, 1 if thorough else 8, ctx.seed])
     events = vlib.read_nd(tr, quoted=False)
     trace_validate(ctx, "Trace_Helpers", tr, events, "helper-results-validated-by-Trace_Helpers", lambda inv, e: inv)
     ctx.cov["rule"] = ("MC_Layouts: for each of the specified two-way types a base value, every one of 5 variants (zeros, one, 7D/7E pattern, all FF, "
@@ -26,7 +26,7 @@ def check(ctx):
     ctx.assumptions += ["types with layouts in spec/Layouts.tla are covered (43 layouts: 0x0100 x 3 versions, 0x0102 x 2, 0x1210 / 0x9208 x 5 dialects, 0x0704 with 28-byte items, "
                         "0x8103 parameters as a table; 0x0104 has no encoder and 0x1212 none of its own)",
                         "in-domain values: BCD timestamps with decimal digits, length/count fields consistent with their lists",
-                        "GBK<->UTF-8 is checked as a round-trip law on ASCII plus a fixed set of CJK characters"]
+                        "GBK<->UTF-8: round-trip law, agreement with the golang.org/x/text tables and the GBK unit structure on every encodable character of the basic plane (thorough) or every 8th plus the boundary characters (quick), each alone and next to ASCII / CJK neighbours; the tables themselves are trusted"]
 
 
 def replay(ctx, path):
